@@ -63,6 +63,7 @@ from ..ir import (
     UnionField,
     UserDefined,
     Void,
+    unwrap,
     unwrap_aliases,
     unwrap_nullable,
 )
@@ -1023,12 +1024,13 @@ class IRGenerator:
         annotations = [self._resolve_annotation_type(env, annotation)
                        for annotation in stone_field.annotations]
 
-        if isinstance(data_type, Void):
+        unwrapped_dt, unwrapped_nullable, _ = unwrap(data_type)
+        if isinstance(unwrapped_dt, Void):
             raise InvalidSpec(
                 'Struct field %s cannot have a Void type.' %
                 quote(stone_field.name),
                 stone_field.lineno, stone_field.path)
-        elif isinstance(data_type, Nullable) and stone_field.has_default:
+        elif unwrapped_nullable and stone_field.has_default:
             raise InvalidSpec('Field %s cannot be a nullable '
                               'type and have a default specified.' %
                               quote(stone_field.name),
@@ -1063,7 +1065,7 @@ class IRGenerator:
                 ast_node=stone_field)
         else:
             data_type = self._resolve_type(env, stone_field.type_ref)
-            if isinstance(data_type, Void):
+            if isinstance(unwrap(data_type)[0], Void):
                 raise InvalidSpec('Union member %s cannot have Void '
                                   'type explicit, omit Void instead.' %
                                   quote(stone_field.name),
@@ -1219,6 +1221,9 @@ class IRGenerator:
                 raise InvalidSpec(
                     'Cannot mark reference to nullable type as nullable.',
                     *loc)
+            if isinstance(unwrapped_dt, Void):
+                raise InvalidSpec('Void cannot be marked nullable.',
+                                  *loc)
             data_type = Nullable(data_type)
 
         return data_type
